@@ -14,7 +14,7 @@ import (
 
 var (
 	emailRegexpString     = "([a-zA-Z0-9_.+-]+@([a-zA-Z0-9][a-zA-Z0-9-]*[a-zA-Z0-9]*\\.)+[a-zA-Z]{2,})"
-	timestampRegexpString = "([1-9][0-9]* [+-][0-9]{4})"
+	timestampRegexpString = "((0|[1-9][0-9]*) [+-][0-9]{4})"
 	signRegexp            = regexp.MustCompile("^[^<]* <" + emailRegexpString + "> " + timestampRegexpString + "$")
 )
 
